@@ -39,6 +39,12 @@ a new command the number an earlier command had, discards every undelivered repl
 the number it actually uses; an implementation that re-uses a number EARLIER than the rule allows (e.g. by
 restarting its counter) is not protected by the assumption and meets the stale replies.
 
+The clock may also be moved from outside with `sleep(seconds)` (a whole number of ticks): the driver does so inside
+callbacks and inside lazy iterables of commands, which in reality take time; a deadline may therefore already lie
+in the past when select() is next called.  Like the real select.select, select() raises ValueError when it is given
+a negative time-out.  `start_reference(k)` starts the reference allocator at k (a connection that has already
+issued k sequence numbers).
+
 Everything observable is appended, in program order, to `events`:
     ["send", seq, cmd, burst, t, kind]              a datagram handed to socket.send
     ["select", timeout, t_before, t_after, ready]
@@ -147,10 +153,16 @@ class VirtualNet(object):
     def sleep(self, s):
         self.now += s
 
+    def start_reference(self, k):
+        self.ref_next = k % self.seqmod
+
     def select(self, r, w, x, timeout=None):
         self.nselect += 1
         if self.nselect > self.max_selects:
             raise DidNotTerminate()
+        if timeout is not None and timeout < 0:
+            # what the real select.select does with a negative time-out
+            raise ValueError("timeout must be non-negative")
         # the time-out in whole ticks, rounded up (a select never returns early; the clock has a resolution)
         tq = 0 if timeout is None else max(0, int(math.ceil(timeout / self.quantum)))
         timeout = tq * self.quantum
